@@ -219,8 +219,9 @@ def tlc(work, spec, cfg, files=None, workers=1, timeout=1800, extra=None, java_o
     cmd = ['timeout', str(timeout), 'tlc', '-workers', str(workers), '-metadir', meta, '-config', cfg,
            '-noGenerateSpecTE'] + (extra or []) + [spec + '.tla']
     env = dict(os.environ)
-    if java_opts:
-        env['JAVA_TOOL_OPTIONS'] = java_opts
+    jtmp = os.path.join(d, 'jtmp')
+    os.makedirs(jtmp, exist_ok=True)
+    env['JAVA_TOOL_OPTIONS'] = ('-Djava.io.tmpdir=%s ' % jtmp) + (java_opts or '')
     t0 = time.time()
     p = subprocess.run(cmd, cwd=d, env=env, capture_output=True, text=True)
     return {'rc': p.returncode, 'out': p.stdout, 'err': p.stderr, 'dir': d, 'wall': time.time() - t0}
